@@ -1429,6 +1429,10 @@ fn rendezvous_pairs(f: Family) -> Vec<(u32, u32, u32)> {
         }
         Family::HandleChurn => {
             for _ in 0..2 {
+                // a consumer that has loaded its position pauses until a sibling handle has been dropped
+                v.push((site::R_ATTEMPT, c, site::RX_UNSUB_DEC));
+                v.push((site::R_ATTEMPT, c, site::RX_UNSUB_DONE));
+                v.push((site::R_ATTEMPT, c, site::RX_UNSUB_DEC));
                 v.push((site::R_POS, c, site::RX_CLONE_DUP));
                 v.push((site::R_TAG, c, site::RX_CLONE_DUP));
                 v.push((site::R_BEFORE_READ, c, site::RX_CLONE_DUP));
